@@ -101,8 +101,9 @@ def _eof_condition_consulted(ctx: Ctx, ev: Evidence) -> list[Finding]:
         stores = [x for x in e.ev if x.kind == "store" and x.name.endswith(".file_size_eof")]
         if not stores:
             continue  # the EOF was not taken up on this edge
-        entry = stores[0].func.split(".")[-1]
-        g = groups.setdefault(entry, {"ok": 0, "bad": 0, "edge": None, "site": stores[0].site})
+        # grouped by what the handler knew when the EOF arrived (Metadata received or not), named without private identifiers
+        entry = "before the Metadata PDU" if a.h.wget(e.pre, "_params.acked_params.metadata_missing") is True or state_of(a, e.pre) == "IDLE" else "after the Metadata PDU"
+        g = groups.setdefault(entry, {"ok": 0, "bad": 0, "edge": None, "site": stores[0].site, "fn": stores[0].func.split(".")[-1]})
         if any(k == ("pkt", "condition_code") for k, _ in e.ch):
             g["ok"] += 1
         else:
@@ -113,10 +114,10 @@ def _eof_condition_consulted(ctx: Ctx, ev: Evidence) -> list[Finding]:
         raise AnalysisError("no EOF-accepting edge found in the destination ATS")
     for entry, g in sorted(groups.items()):
         ok = g["bad"] == 0
-        ev.inst("C12-R5", f"dest handler | EOF taken up in {entry}: condition code consulted on {g['ok']} edges, never read on {g['bad']}", "ok" if ok else "violation", g["site"])
+        ev.inst("C12-R5", f"dest handler | EOF taken up {entry} (in {g['fn']}): condition code consulted on {g['ok']} edges, never read on {g['bad']}", "ok" if ok else "violation", g["site"])
         if not ok:
             out.append(Finding("C12-R5", f"dest handler | EOF accepted without consulting its condition code | {entry}",
-                               f"{entry} records and acknowledges an EOF PDU without ever reading its condition code: an EOF (cancel) on this path is treated as a regular end of file", g["site"], witness_of(a, g["edge"])))
+                               f"{g['fn']} records and acknowledges an EOF PDU that arrives {entry} without ever reading its condition code: an EOF (cancel) on this path is treated as a regular end of file", g["site"], witness_of(a, g["edge"])))
     return out
 
 
